@@ -309,13 +309,13 @@ class Table:
         if kwargs:
             selection = []
             for kw,arg in kwargs.items():
-                if isinstance(arg,dict): comparison = next(iter(arg.keys()))
-                if kw in self._indexes and comparison != "match" and not callable(arg):
+                compare = next(iter(arg.keys())) if isinstance(arg,dict) else comparison
+                if kw in self._indexes and compare != "match" and not callable(arg):
                     for lo,hi in self._lohis[kw]:
-                        for l,h in self._compare(lo,hi,self._data[kw],arg,comparison,"bisect"):
+                        for l,h in self._compare(lo,hi,self._data[kw],arg,compare,"bisect"):
                             selection.extend(range(l,h))
                 else:
-                    selection.extend(self._compare(0,len(self),self._data[kw],arg,comparison,"foreach"))
+                    selection.extend(self._compare(0,len(self),self._data[kw],arg,compare,"foreach"))
 
             if len(kwargs) > 1: selection=sorted(set(selection))
 
